@@ -58,7 +58,7 @@ func UtxoValidateTimeToLive(
 	pp common.ProtocolParameters,
 ) error {
 	ttl := tx.TTL()
-	if ttl == 0 || ttl >= slot {
+	if ttl >= slot {
 		return nil
 	}
 	return ExpiredUtxoError{
